@@ -968,3 +968,18 @@ Proof.
     - destruct Hk as [<-|[<-|[<-|[]]]]; vm_compute in Hm; discriminate. }
   repeat split; reflexivity.
 Qed.
+
+(* odd prefixes: empty, a newline, invalid UTF-8, one that looks like an invocation *)
+Example ex_odd_prefixes :
+  execute (mk_handler [] ex_table) (ex_event (bs "p a b")) =
+    Invoke ex_stored [bs "a"; bs "b"] (bs "a b") /\
+  execute (mk_handler [] ex_table) (ex_event (bs " p a b")) = Nothing /\
+  execute (mk_handler [10] ex_table) (ex_event (10 :: bs "p a b")) =
+    Invoke ex_stored [bs "a"; bs "b"] (bs "a b") /\
+  execute (mk_handler [255; 33] ex_table) (ex_event (255 :: bs "!p a b")) =
+    Invoke ex_stored [bs "a"; bs "b"] (bs "a b") /\
+  execute (mk_handler [255; 33] ex_table) (ex_event (fffd ++ bs "!p a b")) = Nothing /\
+  execute (mk_handler (bs "ping ") ex_table) (ex_event (bs "ping ping a b")) =
+    Invoke ex_stored [bs "a"; bs "b"] (bs "a b") /\
+  execute (mk_handler (bs "ping ") ex_table) (ex_event (bs "ping a b")) = Nothing.
+Proof. vm_compute. repeat split. Qed.
